@@ -702,6 +702,17 @@ WidthOK == \A q \in Queues : st[q].used >= 0 /\ st[q].used <= 2 * Width[q] + Car
 NoEarlyStart == \A i \in running \cup done : On[i] \in activated
 NoCrash == \A t \in Threads : pc[t] # "crash"
 RefOK == \A q \in Queues : ref[q] >= 0
+\* The inductive reason of HierarchyExclusion, and what spec/ChainLockTrace.tla checks on recorded executions of the real library:
+\* (L1) an item executes on a thread that owns the drain lock of EVERY serial queue on the target chain of its queue
+\*      (nested drains, _dispatch_sync_recurse, or the lock transfers of the waiter hand-off);
+RunningOn(t) == IF pc[t] \in {"call_end", "rd_call_end"} THEN T(t).dc ELSE IF pc[t] = "sync_call_end" THEN T(t).item ELSE NULL
+LockChain == \A t \in Threads : RunningOn(t) # NULL =>
+                \A b \in ChainOf(On[RunningOn(t)]) : Width[b] = 1 => st[b].owner = t
+\* (L2) a queue whose target is a serial queue is drained only by the thread that owns the target's drain lock
+DrainPcs == {"dr_tail0", "dr_head", "dr_susp", "dr_item", "upgrade", "drop_ib", "acq_w", "pop1", "pop2", "pop3", "popped", "call",
+             "call_end", "dr_next", "unlock", "unlock_wait", "fin_bw"}
+DrainFromTarget == \A t \in Threads : (pc[t] \in DrainPcs /\ Inner(T(t).q) /\ Width[Target[T(t).q]] = 1) =>
+                      st[Target[T(t).q]].owner = t
 \* liveness: everything submitted eventually runs
 Live == <>(done = Items)
 =============================================================================
